@@ -195,6 +195,12 @@ def build_app(env, plan, journal, holder):
                     sess.release_lock()
                 elif a == 'regen':
                     cherrypy.tools.sessions.regenerate()
+            if plan['out'] == 'iredir':
+                # an InternalRedirect to another session-using resource, raised by a handler that (optionally) has
+                # switched streaming on: the first request has to let go of the lock before the target is served
+                if plan['stream']:
+                    cherrypy.response.stream = True
+                raise cherrypy.InternalRedirect('/setup')
             _raise(plan['out'])
             if plan['stream']:
                 cherrypy.response.stream = True
